@@ -6,7 +6,7 @@ From Coq.Strings Require Import Byte.
 From Verif Require Import Lib.Bytes Model.Wire Model.TxCodec Model.Sighash Proofs.Sighash Proofs.SighashEq
   Proofs.SighashCommit Crypto.Sha256 Crypto.Ripemd160 Crypto.HashLemmas.
 From Verif Require Import Model.VerifyInput Model.SignPlace Model.SignSeq Proofs.VerifyInput Proofs.SignPlace
-  Proofs.SignPlaceSeq Proofs.SignPlaceTx Proofs.TamperDigest Proofs.TamperDigestWitness.
+  Proofs.SignPlaceSeq Proofs.SignPlaceTx Proofs.TamperDigest Proofs.TamperDigestWitness Proofs.SignPlaceHashType.
 Import ListNotations.
 
 (* --- soundness: True  =>  m signatures valid for m distinct key positions, order preserved
@@ -206,7 +206,7 @@ Example sign_history_instance :
   fst (lib_verify_input_run (c_sv 0) pubs (lib_icalls (c_sv 0) (c_mk 0) pubs [] cs) 3) = true /\
   fst (lib_verify_input_run (c_sv 0) pubs (lib_icalls (c_sv 0) (c_mk 0) pubs [] cs) 4) = false.
 Proof.
-  split; [intros k; unfold c_sv, c_mk; rewrite Z.eqb_refl; reflexivity|].
+  split; [intros k; unfold c_sv, c_sv_at, c_mk; rewrite Z.eqb_refl; reflexivity|].
   split; [repeat constructor; simpl; intuition discriminate|].
   split.
   - intros k k' Hk Hk' E. simpl in Hk, Hk'.
@@ -263,18 +263,19 @@ Theorem tx_history_then_verify : forall (B : Type) (svi : nat -> B -> Z -> bool)
 Proof. exact @tx_history_then_verify_thm. Qed.
 
 (* the driver machine's OSign / OVerify steps are these calls, under the digests (epochs) of its state *)
-Theorem machine_sign_is_tcall : forall st target r f signers,
-  cs_ins (fst (run_op st (OSign target r f signers)))
-  = lib_tcall (fun i => c_sv (epoch_at (cs_epochs st) i)) (fun i => c_mk (epoch_at (cs_epochs st) i))
+Theorem machine_sign_is_tcall : forall fixed st target r f signers,
+  cs_ins (fst (run_op fixed st (OSign target r f signers)))
+  = lib_tcall (c_svi (cs_epochs st) (cs_ins st)) (fun i => c_mk (epoch_at (cs_epochs st) i))
               (cs_ins st) (TSign target r f signers).
 Proof. exact run_op_sign_is_tcall. Qed.
 
-Theorem machine_verify_is_tcall : forall st,
-  cs_ins (fst (run_op st OVerify))
-  = lib_tcall (fun i => c_sv (epoch_at (cs_epochs st) i)) (fun i => c_mk (epoch_at (cs_epochs st) i))
+(* (c_svi: the relation of input i under ITS digest for ITS Input.hash_type) *)
+Theorem machine_verify_is_tcall : forall fixed st,
+  cs_ins (fst (run_op fixed st OVerify))
+  = lib_tcall (c_svi (cs_epochs st) (cs_ins st)) (fun i => c_mk (epoch_at (cs_epochs st) i))
               (cs_ins st) TVerify /\
-  (exists v m, snd (run_op st OVerify)
-     = ObsVerify (fst (lib_tx_verify_run (fun i => c_sv (epoch_at (cs_epochs st) i)) (cs_ins st))) v m).
+  (exists v m, snd (run_op fixed st OVerify)
+     = ObsVerify (fst (lib_tx_verify_run (c_svi (cs_epochs st) (cs_ins st)) (cs_ins st))) v m).
 Proof. exact run_op_verify_is_tcall. Qed.
 
 (* non-vacuity: input 0 = 2-of-3 over keys 0, 2, 4; input 1 = single key 6.  sign(keys 4, 6) over all inputs;
@@ -295,7 +296,7 @@ Example tx_history_instance :
   fst (lib_tx_verify_run svi (lib_tcalls svi mki sh cs)) = true /\
   fst (lib_tx_verify_run svi (lib_tcalls svi mki sh4 cs)) = false.
 Proof.
-  split; [intros i k; unfold c_sv, c_mk; rewrite Z.eqb_refl; reflexivity|].
+  split; [intros i k; unfold c_sv, c_sv_at, c_mk; rewrite Z.eqb_refl; reflexivity|].
   split; [repeat constructor; simpl; intuition discriminate|].
   split; [repeat constructor|].
   split.
@@ -305,6 +306,75 @@ Proof.
     + intros k k' Hk Hk' E. simpl in Hk, Hk'. destruct Hk as [<-|[]]; destruct Hk' as [<-|[]]. reflexivity.
   - vm_compute. repeat split.
 Qed.
+
+(* ====================================================================================================
+   the hash type a signature carries (Proofs/SignPlaceHashType.v).  Transaction.verify asks for the digest of
+   Input.hash_type; the parse path sets it from the hash-type byte of the input's first signature (every input
+   kind after fix C02-5).  Signature relation svd indexed by the digest, arbitrary.
+   ==================================================================================================== *)
+Theorem verify_uses_signature_hash_type : forall (B D : Type) (svd : D -> B -> Z -> bool) (digest : Z -> D) (htb : B -> Z)
+  txsw (x : @sinput B) s ss,
+  let x' := lib_roundtrip_input htb true txsw x in
+  si_sigs x' = s :: ss ->
+  si_ht x' = htb (body s) /\
+  fst (lib_verify_input_run (svd (digest (si_ht x'))) (si_keys x') (si_sigs x') (si_m x'))
+  = lib_verify_input (svd (digest (htb (body s)))) false (si_keys x) (map (@body B) (s :: ss)) (si_m x).
+Proof. exact @verify_uses_signature_hash_type_thm. Qed.
+
+(* a first signature valid only under another digest d0 (made for SIGHASH_ALL, say, while its byte says otherwise):
+   the parsed input does not verify — premise bound_to as in stale_signatures_fail *)
+Theorem signature_for_other_hash_type_fails : forall (B D : Type) (svd : D -> B -> Z -> bool) (digest : Z -> D)
+  (htb : B -> Z) txsw (x : @sinput B) s ss d0,
+  let x' := lib_roundtrip_input htb true txsw x in
+  si_sigs x' = s :: ss -> 1 <= si_m x ->
+  digest (htb (body s)) <> d0 -> bound_to svd d0 (si_keys x) (body s) ->
+  fst (lib_verify_input_run (svd (digest (si_ht x'))) (si_keys x') (si_sigs x') (si_m x')) = false.
+Proof. exact @signature_for_other_hash_type_fails_thm. Qed.
+
+(* the parse path as it was before fix C02-5 *)
+Theorem unrepaired_segwit_ignores_hash_type : forall (B : Type) (htb : B -> Z) txsw (x : @sinput B),
+  si_segwit x = true -> si_ht (lib_roundtrip_input htb false txsw x) = 1%Z.
+Proof. exact @unrepaired_segwit_ignores_hash_type_thm. Qed.
+
+(* the digests of one BIP143 input for two different hash types differ (C01 preimage model), or H collides: the
+   premise "digest (htb (body s)) <> d0" above is what the library's digests satisfy *)
+Theorem hash_type_changes_digest : forall (H H160 : bytes -> bytes),
+  (forall b, length (H b) = 32%nat) -> (forall b, length (H160 b) = 20%nat) ->
+  forall t i ht ht' x d d',
+  wf_stx t -> nth_error (st_ins t) i = Some x ->
+  k_segwit (si_kind x) = true -> st_segwit t = true ->
+  (0 <= ht < 2 ^ 32)%Z -> (0 <= ht' < 2 ^ 32)%Z -> ht <> ht' ->
+  lib_digest H H160 t i ht = Some d -> lib_digest H H160 t i ht' = Some d' ->
+  d <> d' \/ collision H.
+Proof. exact hash_type_changes_digest_thm. Qed.
+
+(* finding witness_signature_hash_type_ignored (repaired, C02-5): a signed P2WPKH input whose serialized signature's
+   hash-type byte is changed 01 -> 03.  Before the repair the parsed transaction verifies although the signature is
+   valid for no listed key under the digest for the byte it carries; the repaired parse path rejects it.  And the
+   completeness half: a third-party signature made for SIGHASH_SINGLE verifies only after the repair *)
+Example witness_hash_type_ignored_prefix_refuted :
+  run_scenario_at false [((true, [0]%Z), 1)] [OSign None false true [0%Z]; ORoundHt [(0, 0, 3%Z)]]
+  = [ObsSign 0; ObsVerify true [Some true] [[[false]]]] /\
+  run_scenario_at true [((true, [0]%Z), 1)] [OSign None false true [0%Z]; ORoundHt [(0, 0, 3%Z)]]
+  = [ObsSign 0; ObsVerify false [Some false] [[[false]]]] /\
+  run_scenario_at false [((true, [0]%Z), 1)] [OPlace 0 3%Z [0%Z]; ORound]
+  = [ObsNone; ObsVerify false [Some false] [[[true]]]] /\
+  run_scenario_at true [((true, [0]%Z), 1)] [OPlace 0 3%Z [0%Z]; ORound]
+  = [ObsNone; ObsVerify true [Some true] [[[true]]]].
+Proof. vm_compute. repeat split. Qed.
+
+(* --- known finding input_level_hash_type: ONE hash type per input (the first signature's after parse, the last
+       non-zero one after Input(signatures=...)) although consensus checks every signature under the digest for the
+       byte it carries.  2-of-3 P2WSH signed by keys 0 and 4: the byte of the SECOND serialized signature changed to
+       03 — the parsed transaction verifies with one valid signature; on the constructor path the same with the
+       FIRST signature's byte, and with a single signature whose byte is 00 --- *)
+Example input_level_hash_type_refuted :
+  run_scenario [((true, [0; 2; 4]%Z), 2)] [OSign None false true [0; 4]%Z; ORoundHt [(0, 1, 3%Z)]; OCtor [(0, 0, 3%Z)]]
+  = [ObsSign 0; ObsVerify true [Some true] [[[true; false; false]; [false; false; false]]];
+     ObsVerify true [Some true] [[[false; false; false]; [false; false; true]]]] /\
+  run_scenario [((true, [0]%Z), 1)] [OSign None false true [0%Z]; OCtor [(0, 0, 0%Z)]]
+  = [ObsSign 0; ObsVerify true [Some true] [[[false]]]].
+Proof. vm_compute. split; reflexivity. Qed.
 
 (* ====================================================================================================
    tamper_changes_digest (Proofs/TamperDigest.v, on C01's preimage model)
@@ -416,15 +486,15 @@ Proof. exact tamper_instance_proof. Qed.
 Example stale_signatures_instance :
   let sv := fun (e : Z) (b : cbody) (k : Z) => c_sv e b k in
   let keys := [0; 2; 4]%Z in
-  let stale := fun b : cbody => let '(_, e, _) := b in Z.eqb e 0 in
+  let stale := fun b : cbody => let '(_, e, _, _, _) := b in Z.eqb e 0 in
   (forall s, stale s = true -> bound_to sv 0%Z keys s) /\
   lib_verify_input (sv 1%Z) false keys [c_mk 0 0; c_mk 0 2; c_mk 1 4]%Z 2 = false /\
   lib_verify_input (sv 1%Z) false keys [c_mk 1 0; c_mk 1 2; c_mk 0 4]%Z 2 = true /\
   lib_verify_input (sv 0%Z) false keys [c_mk 0 0; c_mk 0 2; c_mk 1 4]%Z 2 = true.
 Proof.
   split.
-  - intros [[p e] v] Hs e' k Hne _. simpl in Hs. apply Z.eqb_eq in Hs. subst e.
-    unfold c_sv. destruct (Z.eqb 0 e') eqn:E; [apply Z.eqb_eq in E; congruence|].
+  - intros [[[[p e] v] hm] hc] Hs e' k Hne _. simpl in Hs. apply Z.eqb_eq in Hs. subst e.
+    unfold c_sv, c_sv_at. destruct (Z.eqb 0 e') eqn:E; [apply Z.eqb_eq in E; congruence|].
     rewrite andb_false_r. reflexivity.
   - vm_compute. repeat split.
 Qed.
@@ -456,3 +526,7 @@ Print Assumptions tx_history_exact.
 Print Assumptions tx_history_then_verify.
 Print Assumptions machine_sign_is_tcall.
 Print Assumptions machine_verify_is_tcall.
+Print Assumptions verify_uses_signature_hash_type.
+Print Assumptions signature_for_other_hash_type_fails.
+Print Assumptions unrepaired_segwit_ignores_hash_type.
+Print Assumptions hash_type_changes_digest.
